@@ -222,7 +222,7 @@ class FeatureStructure:
 
         """
         res = []
-        for feature, content in self._content.items():
+        for feature, content in self.get_dereferenced().content.items():
             paths = content.get_all_paths()
             for path in paths:
                 res.append([feature] + path)
